@@ -433,6 +433,47 @@ func corpus(e *ev.Env) {
 			})
 		}
 	}
+	// the storage cannot delete
+	for _, src := range [][2]string{{"cookie", "sid"}, {"header", "X-Session-Id"}, {"query", "sid"}} {
+		src := src
+		// Destroy / Regenerate / Reset while Delete fails: if the call reports success the previous
+		// id must be gone; if it reports the error the history ends without a verdict
+		e.Corpus("delete-fault-"+src[0], func(c *ev.Case) {
+			cfg := cfgT{Source: src[0], Name: src[1], VStore: true, Idle: 5 * sec, Abs: 9 * sec}
+			for _, kind := range []string{"regen", "destroy", "reset"} {
+				for _, mw := range []bool{true, false} {
+					fin := func(ops ...op) []op {
+						if !mw && kind != "destroy" {
+							ops = append(ops, k("save"))
+						}
+						return ops
+					}
+					runFixed(e, c, cfg, 1, []cstep{
+						{mw: mw, ops: []op{set("k0", "v0.1"), k("save")}},
+						{mw: mw, present: "@jar", fault: "delete-outage", ops: fin(get("k0"), k(kind), set("k1", "v0.2"))},
+						{mw: mw, present: "@first", ops: []op{get("k0"), k("save")}},
+						{mw: !mw, present: "@first", ops: []op{{K: "byid", Tgt: "@first"}}},
+					})
+				}
+			}
+		})
+		// GetByID of a session past its absolute timeout while Delete fails, then two sessions in use
+		// at the same time (one held by the request, one loaded by GetByID): they stay separate
+		e.Corpus("delete-fault-getbyid-expired-"+src[0], func(c *ev.Case) {
+			cfg := cfgT{Source: src[0], Name: src[1], VStore: true, Idle: 3 * sec, Abs: 4 * sec}
+			runFixed(e, c, cfg, 2, []cstep{
+				{client: 0, mw: true, ops: []op{set("k0", "v0.1")}},
+				{client: 0, adv: 1400 * ms, ops: []op{{K: "byid", Tgt: "@jar", Save: true}}},
+				{client: 0, adv: 1400 * ms, ops: []op{{K: "byid", Tgt: "@jar", Save: true}}},               // 2.8 s: idle renewed
+				{client: 1, adv: 1400 * ms, fault: "delete-outage", ops: []op{{K: "byid", Tgt: "@c0jar"}}}, // 4.2 s: past abs
+				{client: 1, mw: true, ops: []op{set("k0", "v1.1")}},
+				{client: 1, mw: true, ops: []op{set("k0", "v1.2"), set("k1", "v1.3")}},
+				{client: 1, present: "@jar", ops: []op{get("k0"), {K: "byid", Tgt: "@prev"}, get("k0"), get("k1"), set("k2", "v1.4"), k("save")}},
+				{client: 1, mw: true, present: "@prev", ops: []op{get("k0"), get("k1"), get("k2")}},
+				{client: 1, mw: true, present: "@jar", ops: []op{get("k0"), get("k1"), get("k2")}},
+			})
+		})
+	}
 	// a Save that fails (value of a type nobody registered) must not leave anything behind that
 	// damages what other sessions save next
 	for _, src := range [][2]string{{"cookie", "sid"}, {"header", "X-Session-Id"}, {"query", "sid"}} {
